@@ -13,6 +13,9 @@ META = {
     "level": "Decides: (R1) every atom constraint (package, category, repository, version, slot, sub-slot only with a slot, USE) produces the restriction of that kind from the atom's own field under a guard on that field, and blockers add nothing; (R2) the =* operator is not matched by a raw string prefix; (R3) USE deps: (+)/(-) suffix and leading '-' are routed to the right default/sign bucket, enabled flags are matched as 'all present', disabled flags as 'none present', and the three methods of the default-aware containment share one case split; (R4) see C01.R3 for the operator table. Does NOT decide matching for concrete packages.",
     "note": "the (negate, all) meaning table is extracted from values.ContainmentMatch.match in the same run; StrGlobMatch is a raw string prefix matcher (read from its match method)",
 }
+META["technique"] += "; " + 'equality-covers-match field analysis for the *Dep restriction classes; optional-flag shift lint at resolved constructor calls; operand-verbatim rule'
+META["level"] += " Added after the second round of independent changes: " + "(R4) every attribute a restriction's match() consults is compared by its equality (equal restrictions are merged by the boolean instance cache); (R5) no constructor call in restricts.py/atom.py passes a variable named like one optional parameter positionally into another; (R6) _VersionMatch keeps the version/revision operands as given (no str()/strip re-spelling: Revision objects compare numerically, strings do not)."
+META["technique"] += "; " + 'generic pack G on the anchored files (optional-flag shift, closures outliving a loop iteration, single-pass iterables consumed twice, %-templates built from data, in-place writes to class-level / memoised objects, generators mutating what they yielded, memo keys that are projections)'
 
 EXPECT = [
     # callee suffix, argument attributes, guard attributes (subset), position
